@@ -89,7 +89,14 @@ pub fn generate(_ctx: &mut Ctx, seed: u64, i: usize) -> Case {
         3 => {
             // a token-soup "diff"
             let body: String = (0..rng.below(12)).map(|_| format!("{}{}\n", ["+", "-", " ", "@@ -1 +1 @@", "--- a/x", "+++ b/x", "\\ No newline", "diff --git", ""][rng.below(9)], *rng.pick(TOKENS))).collect();
-            case.diff = Some(format!("--- a/{path}\n+++ b/{path}\n@@ -1,{} +1,{} @@\n{}", rng.below(4), rng.below(4), body));
+            // the header may name the target as git quotes unusual names (`core.quotePath`): octal bytes and the short escapes
+            // \a \b \t \n \v \f \r \" \\, also unterminated or with a stray backslash at the end
+            let target = if rng.chance(1, 3) {
+                let stem = ["caf\\303\\251", "notes\\there", "bell\\a", "q\\\"x", "back\\\\slash", "nl\\nx", "cr\\rx", "vt\\v\\f\\b", "oct\\1", "\\777", "end\\"][rng.below(11)];
+                let close = if rng.chance(1, 6) { "" } else { "\"" };
+                format!("\"b/{stem}.{}{close}", path.rsplit('.').next().unwrap_or("py"))
+            } else { format!("b/{path}") };
+            case.diff = Some(format!("--- a/{path}\n+++ {target}\n@@ -1,{} +1,{} @@\n{}", rng.below(4), rng.below(4), body));
             case.scan = false; case.walk = vec![]; case.allow = vec![];
         }
         _ => {}
